@@ -75,62 +75,6 @@ def rebaseOn [DecidableEq T] [DecidableEq H] (z : H) :
       | .node _ _ _, .node _ _ _, _ => .error .invalidRebaseNode
       | _, _, _ => .error .invalidRebaseLeaf
 
-/-- `IntraRebaseAction` (`tree.rs:264-267`). -/
-inductive IntraAction (T : Type) where
-  | noop
-  | replace (t : Tree T)
-  deriving Repr
-
-/-- `known_subtrees: HashMap<(usize, Hash256), Arc<Tree>>` as an association list. -/
-abbrev Known (T H : Type) := List ((Nat × H) × Tree T)
-
-def Known.get? [DecidableEq H] (k : Known T H) (d : Nat) (x : H) : Option (Tree T) :=
-  match k with
-  | [] => none
-  | ((d', x'), t) :: rest => if d = d' ∧ x = x' then some t else Known.get? rest d x
-
-/-- `Tree::intra_rebase` (`tree.rs:433-491`) with the `fix:` for F2: `length` is the number of
-elements under `orig`, and only *full* subtrees are looked up in / added to `known`. -/
-def intraRebase [DecidableEq H] (pf : Option Nat) (z : H) :
-    Heap H → Known T H → Tree T → Nat → Nat → Except Err (IntraAction T × Known T H × Heap H)
-  | h, known, .leaf _ _, _, _ => .ok (.noop, known, h)
-  | h, known, .packed _ _, _, _ => .ok (.noop, known, h)
-  | h, known, .zero _ _, _, _ => .ok (.noop, known, h)
-  | _, _, .node _ _ _, 0, _ => .error .intraRebaseZeroDepth
-  | h, known, orig@(.node id l r), d+1, length =>
-    let hash := h.read z id
-    if hash = z then .error .intraRebaseZeroHash
-    else
-      let maxLeft := 2 ^ (d + pdOf pf)
-      let leftLength := min length maxLeft
-      let rightLength := length - leftLength
-      let full := rightLength == maxLeft
-      match (if full then Known.get? known (d+1) hash else none) with
-      | some t => .ok (.replace t, known, h)
-      | none =>
-        match intraRebase pf z h known l d leftLength with
-        | .error e => .error e
-        | .ok (la, known, h) =>
-          match intraRebase pf z h known r d rightLength with
-          | .error e => .error e
-          | .ok (ra, known, h) =>
-            let res : IntraAction T × Heap H :=
-              match la, ra with
-              | .noop, .noop => (.noop, h)
-              | .noop, .replace nr => let (nid, h) := h.alloc hash; (.replace (.node nid l nr), h)
-              | .replace nl, .noop => let (nid, h) := h.alloc hash; (.replace (.node nid nl r), h)
-              | .replace nl, .replace nr =>
-                let (nid, h) := h.alloc hash; (.replace (.node nid nl nr), h)
-            let (action, h) := res
-            if full then
-              let newSubtree := match action with
-                | .noop => orig
-                | .replace t => t
-              match Known.get? known (d+1) hash with
-              | some _ => .error .intraRebaseRepeatVisit
-              | none => .ok (action, ((d+1, hash), newSubtree) :: known, h)
-            else .ok (action, known, h)
-
 /-- `Tree::tree_hash` (`tree.rs:494-539`), sequential: the memo is read, and if it is absent the
 children are hashed and the result is written back. Leaves recompute when the memo is zero. -/
 def treeHash [DecidableEq H] (E : Elem T H) (A : HashAlg H) : Heap H → Tree T → H × Heap H
@@ -158,5 +102,62 @@ def trueHash (E : Elem T H) (A : HashAlg H) : Tree T → H
   | .packed _ vs => E.packHash vs
   | .zero _ d => zeroHash A d
   | .node _ l r => A.h2 (trueHash E A l) (trueHash E A r)
+
+/-- `IntraRebaseAction` (`tree.rs:264-267`). -/
+inductive IntraAction (T : Type) where
+  | noop
+  | replace (t : Tree T)
+  deriving Repr
+
+/-- `known_subtrees: HashMap<(usize, Hash256), Arc<Tree>>` as an association list. -/
+abbrev Known (T H : Type) := List ((Nat × H) × Tree T)
+
+def Known.get? [DecidableEq H] (k : Known T H) (d : Nat) (x : H) : Option (Tree T) :=
+  match k with
+  | [] => none
+  | ((d', x'), t) :: rest => if d = d' ∧ x = x' then some t else Known.get? rest d x
+
+/-- `Tree::intra_rebase` (`tree.rs`, with the `fix:` commits for F2 and F7): `length` is the
+number of elements under `orig`; only *full* subtrees are looked up in / added to `known`; every
+visited node is hashed with `tree_hash` (cached hash, or computed and cached). -/
+def intraRebase [DecidableEq H] (E : Elem T H) (A : HashAlg H) :
+    Heap H → Known T H → Tree T → Nat → Nat → Except Err (IntraAction T × Known T H × Heap H)
+  | h, known, .leaf _ _, _, _ => .ok (.noop, known, h)
+  | h, known, .packed _ _, _, _ => .ok (.noop, known, h)
+  | h, known, .zero _ _, _, _ => .ok (.noop, known, h)
+  | _, _, .node _ _ _, 0, _ => .error .intraRebaseZeroDepth
+  | h, known, orig@(.node _ l r), d+1, length =>
+    let (hash, h) := treeHash E A h orig
+    if hash = A.zero then .error .intraRebaseZeroHash
+    else
+      let maxLeft := 2 ^ (d + pdOf E.pf)
+      let leftLength := min length maxLeft
+      let rightLength := length - leftLength
+      let full := rightLength == maxLeft
+      match (if full then Known.get? known (d+1) hash else none) with
+      | some t => .ok (.replace t, known, h)
+      | none =>
+        match intraRebase E A h known l d leftLength with
+        | .error e => .error e
+        | .ok (la, known, h) =>
+          match intraRebase E A h known r d rightLength with
+          | .error e => .error e
+          | .ok (ra, known, h) =>
+            let res : IntraAction T × Heap H :=
+              match la, ra with
+              | .noop, .noop => (.noop, h)
+              | .noop, .replace nr => let (nid, h) := h.alloc hash; (.replace (.node nid l nr), h)
+              | .replace nl, .noop => let (nid, h) := h.alloc hash; (.replace (.node nid nl r), h)
+              | .replace nl, .replace nr =>
+                let (nid, h) := h.alloc hash; (.replace (.node nid nl nr), h)
+            let (action, h) := res
+            if full then
+              let newSubtree := match action with
+                | .noop => orig
+                | .replace t => t
+              match Known.get? known (d+1) hash with
+              | some _ => .error .intraRebaseRepeatVisit
+              | none => .ok (action, ((d+1, hash), newSubtree) :: known, h)
+            else .ok (action, known, h)
 
 end Milhouse
